@@ -72,10 +72,14 @@ Record state := mkState {
   st_rules : list (N * rule);               (* matchmaker: (owner, rule) *)
   st_full : list N;                         (* connections that do not read and whose outgoing queue AT THE BUS is over
                                                limits.max_outgoing_bytes (dbus_connection_get_outgoing_size > limit) *)
-  st_held : list (N * list (N * msg)) }.    (* activation->pending_activations: activatable name -> (sender, message) entries
+  st_held : list (N * list (N * msg));    (* activation->pending_activations: activatable name -> (sender, message) entries
                                                held while the service starts, in arrival order *)
+  st_zombie : list N }.                     (* connections whose transport has seen EOF (dbus_connection_get_is_connected is FALSE)
+                                               but whose Disconnected message has not been dispatched yet: still registered,
+                                               names still owned, messages are still ROUTED to them (bus_transaction_send then drops
+                                               them silently: an output entry addressed to such a connection reaches nobody) *)
 
-Definition init : state := mkState [] 0 [] [] 0 [] [] [].
+Definition init : state := mkState [] 0 [] [] 0 [] [] [] [].
 
 Inductive event :=
 | EConnect (fds : bool)                                   (* new connection, authenticated, Hello done *)
@@ -86,7 +90,9 @@ Inductive event :=
 | EReleaseName (c : N) (serial : N) (n : N)
 | EAddMatch (c : N) (serial : N) (rl : rule)
 | EBlock (c : N)        (* c stops reading and other traffic drives its queue at the bus over max_outgoing_bytes *)
-| EDrain (c : N).       (* c reads everything again *)
+| EDrain (c : N)        (* c reads everything again *)
+| EHangup (c : N).      (* c's socket is closed and the bus's transport has noticed (EOF), but the Disconnected message is still in
+                           c's incoming queue: EDisconnect c follows later *)
 
 (* ---------------------------------------------------------------- connections *)
 Definition find_conn (cs : list conn) (c : N) : option conn := find (fun x => c_id x =? c) cs.
@@ -96,6 +102,7 @@ Definition conn_fds (st : state) (c : N) : bool := match find_conn (st_conns st)
 
 (* dbus_connection_get_outgoing_size (c) > limits.max_outgoing_bytes *)
 Definition is_full (st : state) (c : N) : bool := existsb (N.eqb c) (st_full st).
+Definition is_zombie (st : state) (c : N) : bool := existsb (N.eqb c) (st_zombie st).
 
 (* ---------------------------------------------------------------- pending replies *)
 (* the comparison used by both loops in bus/connection.c *)
@@ -292,9 +299,9 @@ Definition eav_out (cf : cfg) (st : state) (c r : N) (m : msg) : out :=
 
 (* ---------------------------------------------------------------- steps *)
 Definition set_pend (st : state) (pl : list pend) : state :=
-  mkState (st_conns st) (st_next st) (st_names st) pl (st_now st) (st_rules st) (st_full st) (st_held st).
+  mkState (st_conns st) (st_next st) (st_names st) pl (st_now st) (st_rules st) (st_full st) (st_held st) (st_zombie st).
 Definition set_names (st : state) (nm : list (N * list owner)) : state :=
-  mkState (st_conns st) (st_next st) nm (st_pend st) (st_now st) (st_rules st) (st_full st) (st_held st).
+  mkState (st_conns st) (st_next st) nm (st_pend st) (st_now st) (st_rules st) (st_full st) (st_held st) (st_zombie st).
 
 (* bus_dispatch, "route to named service" branch, then bus_dispatch_matches and the out: label *)
 (* names for which a .service file is configured (test universe: t.N8 and t.N9 in every generated configuration) *)
@@ -305,7 +312,7 @@ Fixpoint held_for (h : list (N * list (N * msg))) (n : N) : list (N * msg) :=
 Definition set_held (h : list (N * list (N * msg))) (n : N) (l : list (N * msg)) : list (N * list (N * msg)) :=
   (match l with [] => [] | _ => [(n, l)] end) ++ filter (fun e => negb (fst e =? n)) h.
 Definition with_held (st : state) (h : list (N * list (N * msg))) : state :=
-  mkState (st_conns st) (st_next st) (st_names st) (st_pend st) (st_now st) (st_rules st) (st_full st) h.
+  mkState (st_conns st) (st_next st) (st_names st) (st_pend st) (st_now st) (st_rules st) (st_full st) h (st_zombie st).
 
 (* bus_dispatch_matches for the addressed recipient r (and the error reply of the caller's out: label / of
    bus_activation_send_pending_auto_activation_messages): fd capability, gate, send, match-rule recipients *)
@@ -360,19 +367,20 @@ Definition disconnect (cf : cfg) (st : state) (c : N) : state * out :=
   let '(pl, o) := expire_pass cf (st_now st) (drop_pending (st_pend st) c) in
   (mkState conns (st_next st) (names_drop (st_names st) c) pl (st_now st) (filter (fun x => negb (fst x =? c)) (st_rules st))
            (filter (fun x => negb (x =? c)) (st_full st))
-           (map (fun e => (fst e, filter (fun x => negb (fst x =? c)) (snd e))) (st_held st)), o).
+           (map (fun e => (fst e, filter (fun x => negb (fst x =? c)) (snd e))) (st_held st))
+           (filter (fun x => negb (x =? c)) (st_zombie st)), o).
 
 Definition tick (cf : cfg) (st : state) (d : N) : state * out :=
   let now := st_now st + d in
   let '(pl, o) := expire_pass cf now (st_pend st) in
-  (mkState (st_conns st) (st_next st) (st_names st) pl now (st_rules st) (st_full st) (st_held st), o).
+  (mkState (st_conns st) (st_next st) (st_names st) pl now (st_rules st) (st_full st) (st_held st) (st_zombie st), o).
 
 (* an event is well-formed when its actor is connected, serials are non-zero and fds are only sent by
    connections that negotiated them; other events are not expressible on a socket and are no-ops here *)
 Definition wf_event (st : state) (e : event) : bool :=
   match e with
   | EConnect _ => true
-  | ESend c m => connected st c && negb (m_serial m =? 0) && ((m_nfds m =? 0) || conn_fds st c) && negb (is_full st c)
+  | ESend c m => connected st c && negb (m_serial m =? 0) && ((m_nfds m =? 0) || conn_fds st c) && negb (is_full st c) && negb (is_zombie st c)
   | EDisconnect c => connected st c
   | ETick _ => true
   | ERequestName c s _ _ _ _ => connected st c && negb (s =? 0) && negb (is_full st c)
@@ -383,13 +391,14 @@ Definition wf_event (st : state) (e : event) : bool :=
   | EBlock c => connected st c && negb (is_full st c) && forallb (fun p => negb (p_get p =? c)) (st_pend st)
                 && forallb (fun e => forallb (fun x => negb (fst x =? c)) (snd e)) (st_held st)
   | EDrain c => connected st c && is_full st c
+  | EHangup c => connected st c && negb (is_zombie st c)
   end.
 
 Definition step (cf : cfg) (st : state) (e : event) : state * out :=
   if negb (wf_event st e) then (st, []) else
   match e with
   | EConnect fds =>
-      (mkState (st_conns st ++ [mkConn (st_next st) fds]) (st_next st + 1) (st_names st) (st_pend st) (st_now st) (st_rules st) (st_full st) (st_held st), [])
+      (mkState (st_conns st ++ [mkConn (st_next st) fds]) (st_next st + 1) (st_names st) (st_pend st) (st_now st) (st_rules st) (st_full st) (st_held st) (st_zombie st), [])
   | ESend c m => dispatch cf st c m
   | EDisconnect c => disconnect cf st c
   | ETick d => tick cf st d
@@ -402,11 +411,13 @@ Definition step (cf : cfg) (st : state) (e : event) : state * out :=
       let '(nm, code) := release (st_names st) c n in
       (set_names st nm, [(c, ODrv s code)])
   | EAddMatch c s rl =>          (* bus_driver_handle_add_match: the rule is stored, empty method return *)
-      (mkState (st_conns st) (st_next st) (st_names st) (st_pend st) (st_now st) (st_rules st ++ [(c, rl)]) (st_full st) (st_held st), [(c, ODrv s 0)])
+      (mkState (st_conns st) (st_next st) (st_names st) (st_pend st) (st_now st) (st_rules st ++ [(c, rl)]) (st_full st) (st_held st) (st_zombie st), [(c, ODrv s 0)])
   | EBlock c =>
-      (mkState (st_conns st) (st_next st) (st_names st) (st_pend st) (st_now st) (st_rules st) (c :: st_full st) (st_held st), [])
+      (mkState (st_conns st) (st_next st) (st_names st) (st_pend st) (st_now st) (st_rules st) (c :: st_full st) (st_held st) (st_zombie st), [])
   | EDrain c =>
-      (mkState (st_conns st) (st_next st) (st_names st) (st_pend st) (st_now st) (st_rules st) (filter (fun x => negb (x =? c)) (st_full st)) (st_held st), [])
+      (mkState (st_conns st) (st_next st) (st_names st) (st_pend st) (st_now st) (st_rules st) (filter (fun x => negb (x =? c)) (st_full st)) (st_held st) (st_zombie st), [])
+  | EHangup c =>         (* _dbus_transport_disconnect: nothing the routing code looks at changes *)
+      (mkState (st_conns st) (st_next st) (st_names st) (st_pend st) (st_now st) (st_rules st) (st_full st) (st_held st) (c :: st_zombie st), [])
   end.
 
 (* a run: the trace lists (event, output) pairs, OLDEST LAST (head = most recent step) *)
